@@ -382,6 +382,11 @@ Definition P_C14_jail_block (prev : snapshot) (b : blk) : bool :=
 Definition P_C14_stake (c : acase) : bool := forall_blocks c (λ prev b, P_C14_block prev b && P_C14_jail_block prev b).
 
 (* ------------------------------------------------------------------ C10: validator updates *)
+(* the powers the property speaks of are those of the STAKES: total bonded power = sum of the stakes
+   bonded to the delegatee, own stake = sum of its owner's stakes (C11 says the recorded totals equal
+   these sums; here the sums themselves are used, so a total that drifted from its stakes shows) *)
+Definition dv_bonded (d : del_view) : Z := foldr (λ s acc, sv_power s + acc) 0 (dv_stakes d).
+Definition dv_own (a : addr) (d : del_view) : Z := foldr (λ s acc, (if (sv_from s =? a)%N then sv_power s else 0) + acc) 0 (dv_stakes d).
 Definition apply_ups (set : list (addr * Z)) (ups : list (addr * Z)) : option (list (addr * Z)) :=
   foldl (λ acc u, match acc with
      | None => None
@@ -393,10 +398,10 @@ Definition apply_ups (set : list (addr * Z)) (ups : list (addr * Z)) : option (l
      end) (Some set) ups.
 
 Definition dg_less (a b : addr * del_view) : bool :=
-  if dv_total a.2 =? dv_total b.2 then
+  if dv_bonded a.2 =? dv_bonded b.2 then
     if Nat.eqb (length (dv_stakes a.2)) (length (dv_stakes b.2)) then (b.1 <? a.1)%N
     else Nat.ltb (length (dv_stakes b.2)) (length (dv_stakes a.2))
-  else dv_total b.2 <? dv_total a.2.
+  else dv_bonded b.2 <? dv_bonded a.2.
 Fixpoint dg_insert (x : addr * del_view) (l : list (addr * del_view)) : list (addr * del_view) :=
   match l with [] => [x] | y :: r => if dg_less x y then x :: y :: r else y :: dg_insert x r end.
 Definition dg_sort (l : list (addr * del_view)) : list (addr * del_view) := foldr dg_insert [] l.
@@ -404,8 +409,8 @@ Definition dg_sort (l : list (addr * del_view)) : list (addr * del_view) := fold
 (* the set the staking ledger prescribes after a block, from the state committed by the previous one *)
 Definition expected_valset (prev : snapshot) : list (addr * Z) :=
   let g := sn_params prev in
-  let elig := List.filter (λ x : addr * del_view, power_of (g_minValidatorStake g) <=? dv_self x.2) (all_dels prev) in
-  sort_addr ((λ x : addr * del_view, (x.1, dv_total x.2)) <$> take (Z.to_nat (g_maxValidatorCnt g)) (dg_sort elig)).
+  let elig := List.filter (λ x : addr * del_view, power_of (g_minValidatorStake g) <=? dv_own x.1 x.2) (all_dels prev) in
+  sort_addr ((λ x : addr * del_view, (x.1, dv_bonded x.2)) <$> take (Z.to_nat (g_maxValidatorCnt g)) (dg_sort elig)).
 
 Fixpoint nodup_addrs (l : list addr) : bool :=
   match l with [] => true | h :: r => negb (existsb (N.eqb h) r) && nodup_addrs r end.
